@@ -95,8 +95,8 @@ def run(ctx):
         "SetUnsigned, already-redacted and EventBuilder.Build entry points); "
         "kind vocab: the unlisted keys are drawn from every JSON member name of the library's own non-test sources "
         "(%d names gathered from %s: struct tags, name-like literals of the files using gjson / sjson) minus what the "
-        "algorithm lists for the position, in chunks of %s as extra top-level keys and as extra content keys of "
-        "every type, both families, %s; "
+        "algorithm lists for the position, in chunks of %s as extra top-level keys, as extra content keys of "
+        "every type and as extra keys of a member's third_party_invite, both families, %s; "
         "kind hist: the observed redaction is preceded in the same process by earlier calls (RedactEventJSON / "
         "trusted parse + Redact / untrusted parse with a hash mismatch; accepted, or refused for a non-object content "
         "or a non-string type; every algorithm) whose events carry a distinctive value under every listed key: all "
@@ -123,7 +123,7 @@ def run(ctx):
 def vocabulary_covered(records, names, case):
     """Generator sanity: every vocabulary name is an extra key at the top level and in the content of every event
     type, for every algorithm and both families - unless the specification lists it there (then it is no extra)."""
-    top, con = {}, {}
+    top, con, tpi = {}, {}, {}
     for r in records:
         if r.get("kind") != "vocab":
             continue
@@ -131,9 +131,15 @@ def vocabulary_covered(records, names, case):
             top.setdefault((r["fam"], r["algo"]), set()).update(r["top"])
         if isinstance(r["con"], dict):
             con.setdefault((r["fam"], r["algo"], r["type"]), set()).update(r["con"])
-    if len(top) != 10 or len(con) != 80:
-        raise MachineryError("vocab records cover %d (family, algorithm) and %d (family, algorithm, type) combinations, "
-                             "expected 10 and 80" % (len(top), len(con)))
+        if isinstance(r["tpi"], dict):
+            tpi.setdefault((r["fam"], r["algo"]), set()).update(r["tpi"])
+    if len(top) != 10 or len(con) != 80 or len(tpi) != 10:
+        raise MachineryError("vocab records cover %d / %d (family, algorithm) and %d (family, algorithm, type) combinations, "
+                             "expected 10 / 10 and 80" % (len(top), len(tpi), len(con)))
+    for k, seen in tpi.items():
+        missing = [n for n in names + case if n not in seen]       # (`signed` is there in any case)
+        if missing:
+            raise MachineryError("vocabulary names never tried as keys of third_party_invite for %s: %s" % (k, missing[:10]))
     for k, seen in top.items():
         missing = [n for n in names if n not in seen and n not in _TOP_LISTED]
         missing += [n for n in case if k[0] == "raw" and n not in seen]
